@@ -428,7 +428,8 @@ impl<T: Send + Sync + 'static> Probe<T> {
     fn on_msg(self: &Arc<Self>, m: Message<T, Never>) {
         let p = self.p;
         let ms = sum_down(&m, &*self.recf);
-        if let Message::Handshake(tb) = &m {
+        let keep = !with(|ex| ex.cfg.drop_talkback);
+        if let (Message::Handshake(tb), true) = (&m, keep) {
             *self.tb.lock().unwrap_or_else(|e| e.into_inner()) = Some(tb.clone());
         }
         drop(m);
@@ -437,7 +438,7 @@ impl<T: Send + Sync + 'static> Probe<T> {
             let st = ex.probe(p);
             match ms {
                 M::Hs => {
-                    st.has_tb = true;
+                    st.has_tb = keep;
                     st.hs_recv += 1;
                 },
                 M::Data(_) => st.data_recv += 1,
